@@ -575,6 +575,28 @@ def run_c11(ctx):
         assumptions=['parse direction uses the bytes the real writer produced once TLC has confirmed they are the reference encoding'])
 
 
+def run_c12(ctx):
+    build_harness(ctx)
+    quick = ctx.tier == 'quick'
+    model_check(ctx, 'PESProps', 'PESProps.cfg', workers=4)
+    sd = ctx.seed
+    scs = []
+    for part, n in (('sids', 1), ('flags', 1), ('clocks', 40 if quick else 2000), ('trick', 1), ('crc', 60 if quick else 3000), ('ext', 1),
+                    ('lengths', 60 if quick else 1500)):
+        scs.append({'sid': 'pes-%s' % part, 'kind': 'pes', 'part': part, 'seed': sd, 'n': n})
+    for i in range(8 if quick else 64):
+        scs.append({'sid': 'pes-random-%d' % i, 'kind': 'pes', 'part': 'random', 'seed': sd * 613 + i, 'n': 200 if quick else 1500})
+    return pipeline(
+        ctx, 'Mon_C12', 'pes', scs,
+        rule='header values: all 256 stream ids; all 2^8 combinations of the second flags byte x extension-flag subsets; the 64 combinations of the '
+             'first flags byte; PTS, DTS, ESCR at 0, all-ones, every single-bit value and seeded random values, 9-bit ESCR extensions; ES rate single '
+             'bits; all 256 trick-mode bytes; CRC single-bit/random values; extension-2 length 0..127; P-STD size bits; header stuffing 0..32; '
+             'PES_packet_length 0 / exact / shorter / longer and the 65535 limit; Duration() for every clock value. Writer bytes = '
+             'PESEncode!Encode(value) (TLC); parser on reference bytes (writer-confirmed or twin-built and TLC-re-derived) = value',
+        assumptions=['HasCRC / pack header are not requested from the writer (documented unsupported); they are parsed from twin-built reference bytes',
+                     'Duration(): either floor(a)+floor(b) or floor(a+b) is accepted', 'pack_header_field is outside the statement'])
+
+
 PROPS = {
     'C01': lambda ctx: run_mux_family(ctx, 'C01'),
     'C04': lambda ctx: run_mux_family(ctx, 'C04'),
@@ -591,4 +613,5 @@ PROPS = {
     'C10': run_c10,
     'C15': run_c15,
     'C11': run_c11,
+    'C12': run_c12,
 }
